@@ -16,7 +16,7 @@ define_state_group!(tag_states_group = {
         alpha => ( create_end_tag; start_token_part; update_tag_name_hash; --> #[inline] tag_name_state )
         b'>'  => ( unmark_tag_start; emit_raw_without_token?; --> data_state )
         eof   => ( emit_text_and_eof?; )
-        _     => ( create_comment; start_token_part; reconsume in bogus_comment_state )
+        _     => ( unmark_tag_start; create_comment; start_token_part; reconsume in bogus_comment_state )
     }
 
     markup_declaration_open_state <-- ( start_token_part; ) {
